@@ -123,7 +123,7 @@ def _stage0(ctx, f, seats_expr, label):
     good = False
     if len(rcs) == 1:
         bb = astx.bind_args(rcs[0], rc.params)
-        x = elect.flatten_base(bb[rc.params[0]])
+        x = elect.flatten_base(bb[rc.params[0]], f.node)
         xd = astx.unique_def(f.node, x.id) if isinstance(x, ast.Name) else x
         good = xd is not None and astx.u(xd) == f"{pv}.get_remaining()" and astx.is_name(bb.get(rc.params[1]), f.params[1]) and len(bb) == 2
     ctx.check(good, f, rcs[0] if rcs else f.node, f"{label}: next profile = same profile minus everybody the Plurality stage did not keep", "",
@@ -154,6 +154,11 @@ def r2_toptwo(ctx):
     txt = [astx.u(s) for s in ast.walk(ast.Module(body=seq, type_ignores=[])) if isinstance(s, (ast.Assign, ast.Expr))]
     good = (f"new_profile = {pv}.get_profile()" in txt and f"{pv}.election_states[1].round_number = 2" in txt
             and f"self.election_states.append({pv}.election_states[1])" in txt)
+    if not good:
+        # the state held in a local: s = runoff.election_states[1]; s.round_number = 2; self.election_states.append(s)
+        for s_ in (x for x in ast.walk(ast.Module(body=seq, type_ignores=[])) if isinstance(x, ast.Assign) and isinstance(x.targets[0], ast.Name) and astx.u(x.value) == f"{pv}.election_states[1]"):
+            nm = s_.targets[0].id
+            good = good or (f"new_profile = {pv}.get_profile()" in txt and f"{nm}.round_number = 2" in txt and f"self.election_states.append({nm})" in txt)
     ctx.check(good, f, st, "TopTwo: runoff's round-1 state appended as round 2; its final profile returned", str(txt)[:160],
               f"runoff branch does {txt}")
 
@@ -185,11 +190,14 @@ def r3_alaska(ctx):
     body = ast.Module(body=seq, type_ignores=[])
     txt = [astx.u(s) for s in ast.walk(body) if isinstance(s, (ast.Assign, ast.AugAssign, ast.Expr))]
     shifts = [s for s in ast.walk(body) if isinstance(s, ast.AugAssign) and astx.u(s.target).endswith(".round_number")]
-    good = f"new_profile = {sv}.get_profile()" in txt and f"self.election_states += {sv}.election_states[1:]" in txt and len(shifts) == 1 \
-        and isinstance(shifts[0].op, ast.Add) and astx.is_const(shifts[0].value, 1)
+    good = f"new_profile = {sv}.get_profile()" in txt and len(shifts) == 1 and isinstance(shifts[0].op, ast.Add) and astx.is_const(shifts[0].value, 1)
     if good:
         lp = astx.enclosing(shifts[0], astx.parents(body), ast.For)
         good = lp is not None and astx.u(lp.iter) == f"{sv}.election_states[1:]" and astx.u(shifts[0].target) == f"{astx.u(lp.target)}.round_number"
+        # the renumbered states are added wholesale afterwards, or one by one in the renumbering loop (after the shift)
+        whole = f"self.election_states += {sv}.election_states[1:]" in txt
+        one_by_one = lp is not None and any(isinstance(x, ast.Expr) and astx.u(x) == f"self.election_states.append({astx.u(lp.target)})" and x.lineno > shifts[0].lineno for x in lp.body)
+        good = good and (whole != one_by_one)
     ctx.check(good, f, st, "Alaska: STV states[1:] appended with round numbers shifted by +1; STV's final profile returned", str(txt)[:200],
               f"later-round branch does {txt}")
     # attributes are the unmodified constructor parameters
